@@ -147,6 +147,17 @@ Definition t_param := Eval vm_compute in b "param".
 Definition t_limit := Eval vm_compute in b "Limit".
 Definition t_index := Eval vm_compute in b "Index".
 Definition t_list := Eval vm_compute in b "List".
+Definition t_init := Eval vm_compute in b "Init".
+Definition t_step := Eval vm_compute in b "Step".
+Definition t_count1 := Eval vm_compute in b " = Math.max(0, Math.ceil((".
+Definition t_minus := Eval vm_compute in b " - ".
+Definition t_count2 := Eval vm_compute in b ") / ".
+Definition t_count3 := Eval vm_compute in b "));".
+Definition t_plus := Eval vm_compute in b " + ".
+Definition t_times := Eval vm_compute in b " * ".
+Definition k_var := Eval vm_compute in b "__var".
+Definition n_changeNewlineToBr := Eval vm_compute in b "changeNewlineToBr".
+Definition n_insertWordBreaks := Eval vm_compute in b "insertWordBreaks".
 Definition k_limit := Eval vm_compute in b "__limit".
 Definition k_index := Eval vm_compute in b "__index".
 Definition n_ij := Eval vm_compute in b "ij".
@@ -291,14 +302,19 @@ Definition note_called (key : bstr) (imp : list chunk) : J unit :=
 (* ---- scope.go ---- *)
 Definition jsc_push : J unit := jmod (fun st => set_scope ([] :: j_scope st) (j_n st) st).
 Definition jsc_pop : J unit := jmod (fun st => set_scope (tl (j_scope st)) (j_n st) st).
-Definition jsc_makevar (v : bstr) : J bstr :=
+(* REPAIR C04-6: makevar = genname (a fresh JS name, not yet visible) + bind *)
+Definition jsc_genname (v : bstr) : J bstr :=
   st <~ jget ;;
   let n := j_n st + 1 in
-  let g := v ++ dec_of_N n in
+  jmod (set_scope (j_scope st) n) ;;; jret (v ++ dec_of_N n).
+Definition jsc_bind (v g : bstr) : J unit :=
+  st <~ jget ;;
   match j_scope st with
-  | f :: r => jmod (set_scope (aset f v g :: r) n) ;;; jret g
+  | f :: r => jmod (set_scope (aset f v g :: r) (j_n st))
   | [] => fun _ => Crash je_args                 (* s.stack[len-1] on an empty stack *)
   end.
+Definition jsc_makevar (v : bstr) : J bstr :=
+  g <~ jsc_genname v ;; jsc_bind v g ;;; jret g.
 Fixpoint jsc_lookup (s : list (list (bstr * bstr))) (v : bstr) : bstr :=
   match s with
   | [] => []
@@ -306,18 +322,28 @@ Fixpoint jsc_lookup (s : list (list (bstr * bstr))) (v : bstr) : bstr :=
   end.
 Definition lookup_var (v : bstr) : J bstr := st <~ jget ;; jret (jsc_lookup (j_scope st) v).
 (* the composite literal's keys are inserted in order: a later equal key wins *)
-Definition jsc_push_for_range (v : bstr) : J (bstr * bstr) :=
+(* REPAIR C04-1/C04-2: a range loop has its own index variable, and every loop frame records its variable *)
+Definition jsc_push_for_range (v : bstr) : J (bstr * bstr * bstr * bstr * bstr) :=
   st <~ jget ;;
   let n := j_n st + 1 in
   let d := dec_of_N n in
-  let f := aset (aset (aset [] v (v ++ d)) k_limit (v ++ t_limit ++ d)) k_index (v ++ d) in
-  jmod (set_scope (f :: j_scope st) n) ;;; jret (v ++ d, v ++ t_limit ++ d).
+  let f := aset (aset (aset (aset [] v (v ++ d)) k_var v) k_limit (v ++ t_limit ++ d)) k_index (v ++ t_index ++ d) in
+  jmod (set_scope (f :: j_scope st) n) ;;; jret (v ++ d, v ++ t_init ++ d, v ++ t_step ++ d, v ++ t_limit ++ d, v ++ t_index ++ d).
 Definition jsc_push_for_each (v : bstr) : J (bstr * bstr * bstr * bstr) :=
   st <~ jget ;;
   let n := j_n st + 1 in
   let d := dec_of_N n in
-  let f := aset (aset (aset [] v (v ++ d)) k_limit (v ++ t_limit ++ d)) k_index (v ++ t_index ++ d) in
+  let f := aset (aset (aset (aset [] v (v ++ d)) k_var v) k_limit (v ++ t_limit ++ d)) k_index (v ++ t_index ++ d) in
   jmod (set_scope (f :: j_scope st) n) ;;; jret (v ++ d, v ++ t_list ++ d, v ++ t_limit ++ d, v ++ t_index ++ d).
+(* scope.loop: index and limit of the innermost loop whose variable is v *)
+Fixpoint jsc_loop (s : list (list (bstr * bstr))) (v : bstr) : bstr * bstr :=
+  match s with
+  | [] => ([], [])
+  | f :: r =>
+      let get k := match assoc_s k f with Some x => x | None => [] end in
+      if bstr_eqb (get k_var) v && negb (match get k_index with [] => true | _ => false end)
+      then (get k_index, get k_limit) else jsc_loop r v
+  end.
 
 (* ---- small helpers ---- *)
 Fixpoint sort_items {A} (l : list (bstr * A)) : list (bstr * A) :=     (* sort.Strings(keys) *)
@@ -489,8 +515,12 @@ Fixpoint pick_alt (alts : list (option nat * list (bstr + nat))) (n : nat) : opt
 Definition builtin_call (name : bstr) (args : list node) : J unit :=
   emit [CText (t_soy_dd ++ name ++ t_lpar)] ;;; list_items true args ;;; txt t_rpar.
 
-Definition loop_index : J bstr := lookup_var k_index.
-Definition loop_limit : J bstr := lookup_var k_limit.
+(* the loop a loop function talks about: that of its argument, a plain variable *)
+Definition loop_var_of (args : list node) : bstr :=
+  match args with
+  | [NDataRef _ key []] => key
+  | _ => []
+  end.
 
 Definition visit_function (name : bstr) (args : list node) : J unit :=
   let imp := fmt_chunks (fmt_function (o_fmt o)) name in
@@ -506,14 +536,15 @@ Definition visit_function (name : bstr) (args : list node) : J unit :=
       | None =>
           (* REPAIR C14-loopfunc: outside a loop the three loop functions are an error
              (the pinned tree writes an empty variable name) *)
+          (* REPAIR C04-2: the loop is the one of the argument (the pinned tree uses the innermost loop) *)
           if bstr_eqb name jn_isFirst || bstr_eqb name jn_isLast || bstr_eqb name jn_index then
-            ix <~ loop_index ;;
+            st <~ jget ;;
+            let '(ix, lim) := jsc_loop (j_scope st) (loop_var_of args) in
             match ix with
             | [] => jfail je_noloop
             | _ =>
                 if bstr_eqb name jn_isFirst then emit [CText t_lpar; CName ix; CText t_eq0]
-                else if bstr_eqb name jn_isLast then
-                  lim <~ loop_limit ;; emit [CText t_lpar; CName ix; CText t_eqeq; CName lim; CText t_minus1]
+                else if bstr_eqb name jn_isLast then emit [CText t_lpar; CName ix; CText t_eqeq; CName lim; CText t_minus1]
                 else emit [CName ix]
             end
           else jfail je_function
@@ -522,22 +553,25 @@ Definition visit_function (name : bstr) (args : list node) : J unit :=
 
 (* visitDataRef: the null-safe prefixes go straight to the writer, the
    reference itself is accumulated and written last *)
-Fixpoint jdataref_access (acc : list node) (expr : list chunk) : J (list chunk) :=
+(* REPAIR C04-5: every null-safe prefix opens a parenthesis that is closed after the reference *)
+Fixpoint jdataref_access (acc : list node) (expr closers : list chunk) : J (list chunk) :=
   match acc with
-  | [] => jret expr
+  | [] => jret (expr ++ closers)
   | a :: rest =>
+      let prefix (ns : bool) : J (list chunk) :=
+        if ns then emit ([CText t_op_open] ++ expr ++ [CText t_nullsafe]) ;;; jret (CText t_rpar :: closers) else jret closers in
       match a with
       | NAccIndex _ ns i =>
-          (if ns then emit ([CText t_lpar] ++ expr ++ [CText t_nullsafe]) else jret tt) ;;;
-          jdataref_access rest (expr ++ [CText t_lbrack; CNum (dec_of_Z i); CText t_rbrack])
+          cl <~ prefix ns ;;
+          jdataref_access rest (expr ++ [CText t_lbrack; CNum (dec_of_Z i); CText t_rbrack]) cl
       | NAccKey _ ns k =>
-          (if ns then emit ([CText t_lpar] ++ expr ++ [CText t_nullsafe]) else jret tt) ;;;
-          jdataref_access rest (expr ++ [CText t_dot; CName k])
+          cl <~ prefix ns ;;
+          jdataref_access rest (expr ++ [CText t_dot; CName k]) cl
       | NAccExpr _ ns e =>
-          (if ns then emit ([CText t_lpar] ++ expr ++ [CText t_nullsafe]) else jret tt) ;;;
+          cl <~ prefix ns ;;
           bl <~ jblock e ;;
-          jdataref_access rest (expr ++ [CText t_lbrack] ++ bl ++ [CText t_rbrack])
-      | _ => jdataref_access rest expr              (* no case of the type switch applies *)
+          jdataref_access rest (expr ++ [CText t_lbrack] ++ bl ++ [CText t_rbrack]) cl
+      | _ => jdataref_access rest expr closers        (* no case of the type switch applies *)
       end
   end.
 Definition visit_dataref (key : bstr) (acc : list node) : J unit :=
@@ -547,7 +581,7 @@ Definition visit_dataref (key : bstr) (acc : list node) : J unit :=
                 | [] => jret [CText t_opt_data_dot; CName key]
                 | _ => jret [CName g]
                 end) ;;
-  expr <~ jdataref_access acc base ;;
+  expr <~ jdataref_access acc base [] ;;
   emit expr.
 
 (* visitPrint *)
@@ -561,7 +595,10 @@ Fixpoint print_scan (dirs : list node) (escape : N) (kept : list (bstr * list no
           let escape' := if cancel then 2 else escape in
           if bstr_eqb name n_id || bstr_eqb name n_noAutoescape then print_scan r escape' kept
           else note_called name (fmt_chunks (fmt_directive (o_fmt o)) jn) ;;;
-               print_scan r escape' (kept ++ [(name, args)])
+               (* REPAIR C04-4: the two directives that make HTML from text get their input escaped first *)
+               let kept1 := if bstr_eqb name n_changeNewlineToBr || bstr_eqb name n_insertWordBreaks
+                            then kept ++ [(n_escapeHtml, [])] else kept in
+               print_scan r escape' (kept1 ++ [(name, args)])
       end
   | _ :: _ => fun _ => OutOfModel                 (* Directives is a []*PrintDirectiveNode *)
   end.
@@ -644,10 +681,30 @@ Fixpoint jif_conds (first : bool) (cs : list node) : J unit :=
   | _ :: _ => fun _ => OutOfModel                 (* Conds is a []*IfCondNode *)
   end.
 
-(* visitForRange / visitForeach *)
-(* REPAIR C14-range-arity: range() with 0 or more than 3 arguments is an error
-   (the pinned tree prints the nil limit as <nil>) *)
-Definition visit_for_range (var : bstr) (args : list node) (body : node) : J unit :=
+(* visitLoop: the loop over index < count whose item is [item_expr]; leaves the
+   scope of the loop variable before the ifempty block (REPAIR C04-1 / C04-6) *)
+Definition visit_loop (body : node) (ifempty : option node) (vd : bstr) (item_expr : list chunk) (vlen vidx : bstr) : J unit :=
+  (match ifempty with
+   | Some _ => jsln [CText t_if_open; CName vlen; CText t_gt0] ;;; indent_inc
+   | None => jret tt
+   end) ;;;
+  jsln [CText t_for_open; CName vidx; CText t_eq0_semi; CName vidx; CText t_lt; CName vlen; CText t_semi_sp; CName vidx; CText t_plusplus] ;;;
+  indent_inc ;;;
+  jsln ([CText t_var; CName vd; CText t_eq] ++ item_expr ++ [CText t_semi]) ;;;
+  w body ;;;
+  indent_dec ;;;
+  jsln [CText t_rbrace] ;;;
+  jsc_pop ;;;
+  (match ifempty with
+   | Some ie => indent_dec ;;; jsln [CText t_else_block] ;;; indent_inc ;;; w ie ;;; indent_dec ;;; jsln [CText t_rbrace]
+   | None => jret tt
+   end).
+
+(* visitForRange.  REPAIR C14-range-arity: 0 or more than 3 arguments is an error.
+   REPAIR C04-1: the loop counts iterations, so that index / isFirst / isLast /
+   ifempty mean what they mean for a list.  REPAIR C04-6: the arguments are
+   translated before the loop variable is bound. *)
+Definition visit_for_range (var : bstr) (args : list node) (body : node) (ifempty : option node) : J unit :=
   match match args with
         | [l] => Some (NInt 0 0, l, NInt 0 1)
         | [i; l] => Some (i, l, NInt 0 1)
@@ -656,34 +713,21 @@ Definition visit_for_range (var : bstr) (args : list node) (body : node) : J uni
         end with
   | None => jfail je_range
   | Some (init, limit, incr) =>
-  '(vi, vl) <~ jsc_push_for_range var ;;
-  jindent ;;; emit [CText t_var; CName vl; CText t_eq] ;;; w limit ;;; emit [CText t_semi; CText t_nl] ;;;
-  jindent ;;; emit [CText t_for_open; CName vi; CText t_eq] ;;; w init ;;;
-  emit [CText t_semi_sp; CName vi; CText t_lt; CName vl; CText t_semi_sp; CName vi; CText t_pluseq] ;;; w incr ;;;
-  emit [CText t_for_close; CText t_nl] ;;;
-  indent_inc ;;; w body ;;; indent_dec ;;;
-  jsln [CText t_rbrace] ;;;
-  jsc_pop
+      ie <~ jblock init ;;
+      se <~ jblock incr ;;
+      le <~ jblock limit ;;
+      '(vd, vinit, vstep, vlen, vidx) <~ jsc_push_for_range var ;;
+      jsln ([CText t_var; CName vinit; CText t_eq] ++ ie ++ [CText t_semi]) ;;;
+      jsln ([CText t_var; CName vstep; CText t_eq] ++ se ++ [CText t_semi]) ;;;
+      jsln ([CText t_var; CName vlen; CText t_count1] ++ le ++ [CText t_minus; CName vinit; CText t_count2; CName vstep; CText t_count3]) ;;;
+      visit_loop body ifempty vd [CName vinit; CText t_plus; CName vidx; CText t_times; CName vstep] vlen vidx
   end.
 Definition visit_foreach (var : bstr) (lst body : node) (ifempty : option node) : J unit :=
+  le <~ jblock lst ;;
   '(vd, vlist, vlen, vidx) <~ jsc_push_for_each var ;;
-  jindent ;;; emit [CText t_var; CName vlist; CText t_eq] ;;; w lst ;;; emit [CText t_semi; CText t_nl] ;;;
+  jsln ([CText t_var; CName vlist; CText t_eq] ++ le ++ [CText t_semi]) ;;;
   jsln [CText t_var; CName vlen; CText t_eq; CName vlist; CText t_length] ;;;
-  (match ifempty with
-   | Some _ => jsln [CText t_if_open; CName vlen; CText t_gt0] ;;; indent_inc
-   | None => jret tt
-   end) ;;;
-  jsln [CText t_for_open; CName vidx; CText t_eq0_semi; CName vidx; CText t_lt; CName vlen; CText t_semi_sp; CName vidx; CText t_plusplus] ;;;
-  indent_inc ;;;
-  jsln [CText t_var; CName vd; CText t_eq; CName vlist; CText t_lbrack; CName vidx; CText t_rbrack; CText t_semi] ;;;
-  w body ;;;
-  indent_dec ;;;
-  jsln [CText t_rbrace] ;;;
-  (match ifempty with
-   | Some ie => indent_dec ;;; jsln [CText t_else_block] ;;; indent_inc ;;; w ie ;;; indent_dec ;;; jsln [CText t_rbrace]
-   | None => jret tt
-   end) ;;;
-  jsc_pop.
+  visit_loop body ifempty vd [CName vlist; CText t_lbrack; CName vidx; CText t_rbrack] vlen vidx.
 
 (* visitSwitch *)
 Fixpoint case_values (vs : list node) : J unit :=
@@ -839,7 +883,7 @@ Definition jwalk_node (prev : option (list bool)) (n : node) : J unit :=
   | NNamespace _ name ae => jmod (set_auto ae) ;;; ns_decls (S (length name)) name 0
   | NSoyDoc _ _ => jret tt
   | NTemplate _ name body ae _ => visit_template prev name body ae
-  | NList _ ns => jwalk_list ns
+  | NList _ ns => jsc_push ;;; jwalk_list ns ;;; jsc_pop      (* REPAIR C04-3: a block is a scope *)
   (* output nodes *)
   | NRawText _ t => write_raw_text t
   | NPrint _ arg dirs => visit_print arg dirs
@@ -865,7 +909,7 @@ Definition jwalk_node (prev : option (list bool)) (n : node) : J unit :=
   | NIf _ conds => jindent ;;; jif_conds true conds ;;; txt t_nl
   | NFor _ var lst body ifempty =>
       match lst with
-      | NFunc _ fname args => if bstr_eqb fname jn_range then visit_for_range var args body
+      | NFunc _ fname args => if bstr_eqb fname jn_range then visit_for_range var args body ifempty
                               else visit_foreach var lst body ifempty
       | _ => visit_foreach var lst body ifempty
       end
@@ -874,14 +918,18 @@ Definition jwalk_node (prev : option (list bool)) (n : node) : J unit :=
       indent_inc ;;; jswitch_cases cases ;;; indent_dec ;;; jsln [CText t_rbrace]
   | NCall _ name alldata data params => visit_call name alldata data params
   | NLetValue _ name e =>
-      jindent ;;; g <~ jsc_makevar name ;; emit [CText t_var; CName g; CText t_eq] ;;; w e ;;; emit [CText t_semi; CText t_nl]
+      (* REPAIR C04-6: the value is translated before the name is bound *)
+      v <~ jblock e ;;
+      g <~ jsc_makevar name ;;
+      jsln ([CText t_var; CName g; CText t_eq] ++ v ++ [CText t_semi])
   | NLetContent _ name body =>
       st <~ jget ;;
       let old := j_buf st in
-      g <~ jsc_makevar name ;;
+      g <~ jsc_genname name ;;                     (* REPAIR C04-6: bound after the body *)
       jmod (set_buf g) ;;;
       jsln [CText t_var; CName g; CText t_eq_empty] ;;;
       w body ;;;
+      jsc_bind name g ;;;
       jmod (set_buf old)
   (* values *)
   | NNull _ => txt t_null
